@@ -80,7 +80,7 @@ func c13Run(c c13Case, res *WRes) {
 		cl = oc
 		claims := map[string]any{"iss": "V", "aud": IssuerURL, "scope": "openid photos", "state": roState, "client_id": "V", "response_type": c.RT, "redirect_uri": "https://v.example/cb"}
 		switch c.RO {
-		case "rs256-registered", "uri-registered", "uri-unregistered", "uri-fetch-fails", "both":
+		case "rs256-registered", "uri-registered", "uri-unregistered", "uri-fetch-fails", "both", "uri-case-variant", "uri-trailing-slash", "uri-with-query":
 			ro = signJWT(rsaKey("rsa1"), "RS256", "rk", claims, nil)
 		case "es256-registered":
 			ro = signJWT(ecKey("ec256a"), "ES256", "ek", claims, nil)
@@ -108,7 +108,7 @@ func c13Run(c c13Case, res *WRes) {
 		hc := retryablehttp.NewClient()
 		hc.RetryMax = 0
 		hc.Logger = nil
-		docs := map[string]string{"https://v.example/ro.jwt": ro, "https://evil.example/ro.jwt": ro}
+		docs := map[string]string{"https://v.example/ro.jwt": ro, "https://evil.example/ro.jwt": ro, "https://v.example/RO.jwt": ro, "https://V.example/ro.jwt": ro, "https://v.example/ro.jwt/": ro, "https://v.example/ro.jwt?x=1": ro}
 		if c.RO == "uri-fetch-fails" {
 			docs = map[string]string{}
 		}
@@ -141,6 +141,13 @@ func c13Run(c c13Case, res *WRes) {
 		p.Set("request_uri", "https://v.example/ro.jwt")
 	case "uri-unregistered":
 		p.Set("request_uri", "https://evil.example/ro.jwt")
+	case "uri-case-variant":
+		// not the pre-registered string: differs in the case of the path
+		p.Set("request_uri", "https://v.example/RO.jwt")
+	case "uri-trailing-slash":
+		p.Set("request_uri", "https://v.example/ro.jwt/")
+	case "uri-with-query":
+		p.Set("request_uri", "https://v.example/ro.jwt?x=1")
 	case "both":
 		p.Set("request", ro)
 		p.Set("request_uri", "https://v.example/ro.jwt")
@@ -513,7 +520,7 @@ func c13Cases(group string) []c13Case {
 			}
 		}
 	case "G5-request-objects":
-		for _, ro := range []string{"rs256-registered", "es256-registered", "ps256-registered", "rs256-other-key", "rs256-unknown-kid", "es256-other-key", "none", "hs256-client-secret", "hs256-public-key", "rs256-tampered", "uri-registered", "uri-unregistered", "uri-fetch-fails", "both"} {
+		for _, ro := range []string{"rs256-registered", "es256-registered", "ps256-registered", "rs256-other-key", "rs256-unknown-kid", "es256-other-key", "none", "hs256-client-secret", "hs256-public-key", "rs256-tampered", "uri-registered", "uri-unregistered", "uri-fetch-fails", "both", "uri-case-variant", "uri-trailing-slash", "uri-with-query"} {
 			for _, alg := range []string{"", "RS256", "ES256", "PS256", "none", "HS256"} {
 				for _, rt := range []string{"code", "code id_token", "id_token"} {
 					for _, sc := range []string{"openid a", "a"} {
@@ -586,7 +593,7 @@ func init() {
 		}
 		r.Bounds = map[string]any{"groups": sizes, "G1": "8 registered response-type sets x 4 grant sets x public x all ordered response_type lists of <=3 tokens over {code,token,id_token,bogus} (incl. duplicates, empty) x scope{a, openid a}",
 			"G2": "6 response-mode registrations x 5 requested modes x 7 response types x openid x {direct, pushed, pushed with response_mode appended to the request_uri leg}", "G3": "MinParameterEntropy{8,12} x 7 state values x 7 nonce values x 7 response types x openid",
-			"G4": "1|2 registered URIs x redirect_uri present/absent x 3 scopes x 7 response types x 4 grant sets", "G5": "14 request-object variants x 6 registered algorithms x 3 response types x openid", "G7": "cross terms: 3 registrations x 2 grant sets x every response_type list x 4 modes x state{7,8} x nonce{-,7,8} x openid x redirect_uri present/absent", "G6": "request objects verified through jwks_uri (in-memory transport, real DefaultJWKSFetcherStrategy and cache): 4 look-alike URI pairs x 3 cross-client presentations after a warm-up"}
+			"G4": "1|2 registered URIs x redirect_uri present/absent x 3 scopes x 7 response types x 4 grant sets", "G5": "17 request-object variants (incl. request_uri strings that differ from the registered one in case, a trailing slash or a query) x 6 registered algorithms x 3 response types x openid", "G7": "cross terms: 3 registrations x 2 grant sets x every response_type list x 4 modes x state{7,8} x nonce{-,7,8} x openid x redirect_uri present/absent", "G6": "request objects verified through jwks_uri (in-memory transport, real DefaultJWKSFetcherStrategy and cache): 4 look-alike URI pairs x 3 cross-client presentations after a warm-up"}
 		r.Rule = "each group is a full product, every case is sent to the real authorization endpoint of a fresh provider; an accepted request must satisfy every listed condition (one-sided), tokens never appear in the query, state is echoed on every redirect, issued codes are carried to the token endpoint; G7 covers the cross terms of G1-G4 on three registrations; distinct = distinct accepted cases"
 		r.Assumptions = []string{"hybrid code+id_token without the implicit grant (ID token only) and unsigned request objects for a client with no registered algorithm are don't-care", "request_uri documents are served by an in-memory HTTP transport"}
 		res := r.Pool.Do("c13", jobs, r.Deadline)
